@@ -163,8 +163,21 @@ CASES = {
     'ma.zeros': lambda np, a, b: np.ma.zeros(a.shape), 'broadcast': lambda np, a, b: np.broadcast_to(np.ma.getmaskarray(a), [2] + list(a.shape)),
     'mask_setter': lambda np, a, b: _setmask(np, np.ma.array(a, copy=True), np.ma.getmaskarray(b)), 'scalar_mul': lambda np, a, b: a * 2.5, 'scalar_rdiv': lambda np, a, b: 2.0 / np.ma.asarray(a),
     'true_divide_ma': lambda np, a, b: np.true_divide(np.ma.asarray(a), np.ma.asarray(b)), 'sum_builtin': lambda np, a, b: sum([a, b]),
+    'np.maximum': lambda np, a, b: np.maximum(a, b), 'np.minimum': lambda np, a, b: np.minimum(a, b),
+    'np.maximum_out': lambda np, a, b: _out(np, np.maximum, a, b), 'np.minimum_out': lambda np, a, b: _out(np, np.minimum, a, b),
+    'np.add_out': lambda np, a, b: _out(np, np.add, a, b), 'np.multiply_out': lambda np, a, b: _out(np, np.multiply, a, b),
+    'ma.min_axis0': lambda np, a, b: np.ma.min(np.ma.vstack([a, b]), axis=0), 'ma.max_axis0': lambda np, a, b: np.ma.max(np.ma.stack([a, b]), axis=0),
+    'maskany_axis0': lambda np, a, b: np.ma.getmaskarray(np.ma.stack([a, b])).any(axis=0), 'nd.min_axis0': lambda np, a, b: np.stack([np.ma.getdata(a), np.ma.getdata(b)]).min(axis=0),
+    'masked_values': lambda np, a, b: np.ma.masked_values(a, 1, copy=False, shrink=False), 'masked_values_near': lambda np, a, b: np.ma.masked_values(np.ma.asarray(a) * 1.000001, 1.0),
+    'can_cast': lambda np, a, b: bool(np.can_cast(a.dtype, b.dtype, 'safe')),
     'count_nonzero': lambda np, a, b: np.count_nonzero(np.ma.getdata(a)), 'power3': lambda np, a, b: np.power(np.ma.getdata(a), 3),
 }
+
+
+def _out(np, f, a, b):
+    r = a.copy()
+    x = f(r, b, out=r)
+    return (x, r)
 
 
 def _sorted(np, x):
